@@ -10,7 +10,7 @@
 From Coq Require Import ZArith.
 From RsdnsModel Require Import Base GenConst GenCursor GenTypes Cursor Names Labels Header Tracker RData Reader Writer.
 From RsdnsModel.Spec Require Import WireName LinearPass RDataWire.
-From RsdnsModel.Proofs Require Import CursorSafe ListN LabelsSound WriterSafe WriterLayout RoundTrip RecordRT RDataRT LabelsComplete SpecExec ParseSpec ReaderRefine.
+From RsdnsModel.Proofs Require Import CursorSafe ListN LabelsSound WriterSafe WriterLayout RoundTrip RecordRT RDataRT LabelsComplete SpecExec ParseSpec TrackerRefine ReaderRefine.
 From Coq Require Import ZifyBool ZifyN ZifyNat.
 Open Scope N_scope.
 
@@ -203,4 +203,35 @@ Proof.
       apply spec_name_accept_iff in E. destruct E as [E1 E2]. split; [exact E1|]. split; [exact E2|].
       split; [repeat constructor|vm_compute; discriminate].
     + split; [reflexivity|]. repeat (split; [reflexivity|]). reflexivity.
+Qed.
+
+(* and on it the hypotheses of the reader refinement (C09) are satisfiable: the example is [parsed]
+   with complete lists, the reader behind header() represents (0, 0), and the sequence "question,
+   record, seek(Answer), record" is allowed, within the parsed items, and therefore prescribed *)
+Lemma example_run :
+  exists qs rs e1 e2 h c,
+    parsed example_msg 1 1 0 0 qs rs e1 e2 /\ lenN qs = 1 /\ lenN rs = 1 /\
+    read_header example_msg (c_new example_msg) = (c, Ok h) /\
+    let r0 := mkReader c (tr_set tr_default h) false in
+    RState example_msg 1 1 0 0 qs rs e2 r0 0 0 /\
+    allowed 1 1 0 0 [TQuestion; TRecord; TSeek 0; TRecord] 0 0 = Some (2, 2) /\
+    within 1 1 0 0 qs rs [TQuestion; TRecord; TSeek 0; TRecord] 0 0 /\
+    exists r', RState example_msg 1 1 0 0 qs rs e2 r' 2 2 /\
+               prescribed example_msg 1 1 0 0 qs rs r' [TQuestion; TRecord; TSeek 0; TRecord] r0 0 0.
+Proof.
+  destruct example_stands as (Hq & Hr & Hl).
+  destruct (message_parsed example_msg 1 1 0 0 _ _ 19 35 ltac:(rewrite Hl; lia) ltac:(rewrite Hl; lia) Hq Hr
+              eq_refl eq_refl ltac:(lia) ltac:(lia) ltac:(lia) ltac:(lia)) as (qends & rends & Hp & L1 & L2).
+  eexists. eexists. exists 19, 35. eexists. eexists. split; [exact Hp|]. split; [exact L1|]. split; [exact L2|].
+  split; [vm_compute; reflexivity|]. cbv zeta.
+  assert (Hs : RState example_msg 1 1 0 0 (qitems 12 [mkSQ [(12, [x61])] 1 1] qends) (ritems 19 [mkSR [(12, [x61])] 1 1 60 (A_A 16909060)] rends) 35
+                 (mkReader (c_set_pos (c_new example_msg) 12) (tr_set tr_default (mkHeader 4660 33152 1 1 0 0)) false) 0 0).
+  { apply (rstate_start_any example_msg 1 1 0 0 _ _ 19 35 Hp); try reflexivity. split; reflexivity. }
+  split; [exact Hs|].
+  assert (Ha : allowed 1 1 0 0 [TQuestion; TRecord; TSeek 0; TRecord] 0 0 = Some (2, 2)) by (vm_compute; reflexivity).
+  split; [exact Ha|].
+  assert (Hw : within 1 1 0 0 (qitems 12 [mkSQ [(12, [x61])] 1 1] qends) (ritems 19 [mkSR [(12, [x61])] 1 1 60 (A_A 16909060)] rends)
+                 [TQuestion; TRecord; TSeek 0; TRecord] 0 0) by (eapply allowed_within; [exact L1|exact L2|exact Ha]).
+  split; [exact Hw|].
+  exact (reader_refines_any example_msg 1 1 0 0 _ _ 19 35 Hp _ _ 0 0 2 2 Hs Ha Hw).
 Qed.
